@@ -150,8 +150,10 @@ def main():
     for (i, what, shift, vsrc), va in zip(variants, vh):
         if va.startswith(("crash", "panic")):
             continue
-        want = [(k, c, line + shift, col, text) for (k, c, line, col, text) in located_items(inputs[i][0][1], h[i])]
-        got = [(k, c, line, col, text.replace("\r\n", "\n")) for (k, c, line, col, text) in located_items(vsrc, va)]
+        # a span that reaches into the line ending (E161: the backslash and the character after it) covers `\n` in one layout
+        # and the `\r` of `\r\n` in the other: the underlined text is compared without trailing line-ending characters
+        want = [(k, c, line + shift, col, text.rstrip("\r\n")) for (k, c, line, col, text) in located_items(inputs[i][0][1], h[i])]
+        got = [(k, c, line, col, text.replace("\r\n", "\n").rstrip("\r\n")) for (k, c, line, col, text) in located_items(vsrc, va)]
         dist["layout-variant:" + what] += 1
         if sorted(want) != sorted(got):
             rep.violation("layout:%s:%s" % (what, reqs[i][:200]), {
